@@ -400,6 +400,7 @@ class MCNP_Parser(Parser, metaclass=MetaBuilder):
         "THERMAL_LAW",
         "ZAID",
         "NUMBER_WORD",
+        "PARTICLE_SPECIAL",
     )
     def file_atom(self, p):
         return p[0]
